@@ -26,6 +26,7 @@ type Config struct {
 	HintValue  int64  `json:"hintValue"`
 	Headerless bool   `json:"headerless"`
 	DecJobs    int    `json:"decJobs"`
+	BigParam   bool   `json:"-"`
 	SkipBlocks bool   `json:"skipBlocks,omitempty"` // writer option: store incompressible blocks verbatim
 	WBuf       int    `json:"wbuf,omitempty"` // shared output bitstream buffer (0 = library default)
 	RBuf       int    `json:"rbuf,omitempty"` // shared input bitstream buffer (0 = library default)
@@ -71,6 +72,8 @@ type GenOpts struct {
 	MixedCase   bool // allow lower/mixed case names
 	MaxChain    int
 	SkipOpt     bool // allow the skipBlocks writer option
+	BigParam    bool // allow large block-size parameters (with little data)
+	LongChains  bool // allow chains of 5-8 rarely declining transforms
 	Geometry    bool // allow the special batch geometries (many blocks / big blocks)
 }
 
@@ -179,6 +182,32 @@ func GenConfig(t *sim.Tape, o GenOpts) Config {
 
 	c.Jobs = jobsDraw(t, o.MaxJobs)
 	c.DecJobs = jobsDraw(t, o.MaxJobs)
+
+	if o.BigParam && t.Intn(10) == 9 {
+		// the block size is also a parameter of the codecs (hash and table sizes, thresholds):
+		// large values with little data are cheap to run
+		c.BlockSize = []int{128, 256, 512, 1024, 2048, 4096}[t.Intn(6)]*1024 + 16*t.Intn(3)
+		c.Jobs = min(c.Jobs, 2)
+		c.DecJobs = min(c.DecJobs, 2)
+		c.BigParam = true
+	}
+	if o.LongChains && t.Intn(20) == 19 {
+		// chains of 5-8 stages made of transforms that apply to almost any block (second skip-flags byte)
+		never := []string{"BWT", "RANK", "MTFT", "BWTS", "SRT", "RANK", "MTFT"}
+		k := 5 + t.Intn(4)
+		if t.Intn(2) == 0 {
+			k = 8
+		}
+		parts := make([]string, k)
+		for i := range parts {
+			parts[i] = never[t.Intn(len(never))]
+			if i > 0 && parts[i] == "SRT" && parts[i-1] == "SRT" {
+				parts[i] = "RANK"
+			}
+		}
+		c.Transform = strings.Join(parts, "+")
+		c.BlockSize = max(c.BlockSize, 4096)
+	}
 
 	switch {
 	case o.Checksummed:
@@ -478,6 +507,11 @@ func (d DataRecipe) Bytes() []byte { return GenData(d.Shape, d.Len, d.Seed) }
 
 // GenDataRecipe draws a recipe: length relative to the block size.
 func GenDataRecipe(t *sim.Tape, blockSize int, maxBlocks int) DataRecipe {
+	if blockSize > 100000 {
+		// large block-size parameter: keep the data small (the parameter is what is under test)
+		d := DataRecipe{Shape: ShapeNames[t.Intn(len(ShapeNames))], Len: 1000 + t.Intn(120000), Seed: t.Seed()}
+		return d
+	}
 	var d DataRecipe
 	d.Shape = ShapeNames[t.Intn(len(ShapeNames))]
 	switch t.Pick(2, 8, 2, 1, 1) {
